@@ -263,6 +263,8 @@ def pmap(ctx: Ctx, fn: Callable[[Any], Part], units: List[Any], chunksize: int =
         with mpctx.Pool(min(n, len(units))) as pool:
             for part in pool.imap_unordered(_call_global, units, chunksize=chunksize):
                 ctx.merge(part)
+            pool.close()
+            pool.join()
     if ctx.counts.get("__worker_errors__"):
         errs = [s for s in ctx.samples if isinstance(s, dict) and "worker_error" in s]
         raise HarnessError(f"{ctx.counts['__worker_errors__']} worker(s) crashed: {errs[:1]}")
